@@ -103,29 +103,45 @@ theorem safe_blank (h1 : ∀ t ∈ S, t.contains 32 = true → t = [46, 32]) (hd
       cases hdot
     | cons b w'' => simp at this
 
-/-- what may follow a complete term text: the end, a blank, a closing bracket -/
-def Follow (rest : List Nat) : Prop := rest = [] ∨ ∃ r, rest = 32 :: r ∨ rest = 41 :: r
+/-- what may follow a complete term or type text: the end, a blank, a closing bracket, a comma -/
+def Follow (rest : List Nat) : Prop := rest = [] ∨ ∃ c r, rest = c :: r ∧ (isWs c = true ∨ c = 41 ∨ c = 44)
+
+theorem follow_blank (r : List Nat) : Follow (32 :: r) := Or.inr ⟨32, r, rfl, Or.inl (by decide)⟩
+theorem follow_ws {c : Nat} (hc : isWs c = true) (r : List Nat) : Follow (c :: r) := Or.inr ⟨c, r, rfl, Or.inl hc⟩
+theorem follow_rp (r : List Nat) : Follow (41 :: r) := Or.inr ⟨41, r, rfl, Or.inr (Or.inl rfl)⟩
+theorem follow_comma (r : List Nat) : Follow (44 :: r) := Or.inr ⟨44, r, rfl, Or.inr (Or.inr rfl)⟩
+
+theorem ws_not_idChar {c : Nat} (h : isWs c = true) : isIdChar c = false := by
+  simp only [isWs, isIdChar, isLetter, isDigitC] at *
+  simp at *
+  omega
 
 theorem Follow.notId {rest : List Nat} (h : Follow rest) : NotIdNext rest := by
   intro c r hr
-  rcases h with rfl | ⟨r', rfl | rfl⟩
+  rcases h with rfl | ⟨c', r', rfl, hc | rfl | rfl⟩
   · cases hr
+  · cases hr; exact ws_not_idChar hc
   · cases hr; decide
   · cases hr; decide
 
-theorem safe_rp (hrp : ∀ t ∈ S, [41].isPrefixOf t = true → t = [41] ∨ (t.drop 1).headD 0 ≠ 32 ∧ (t.drop 1).headD 0 ≠ 41)
+theorem safe_rp (hrp : ∀ t ∈ S, [41].isPrefixOf t = true → t = [41] ∨ isWs ((t.drop 1).headD 0) = false ∧ (t.drop 1).headD 0 ≠ 41 ∧ (t.drop 1).headD 0 ≠ 44)
     {rest : List Nat} (hf : Follow rest) : SafeAfter S [41] rest := by
   intro m hm h
-  rcases hf with rfl | ⟨r, rfl | rfl⟩
+  rcases hf with rfl | ⟨c, r, rfl, hcw⟩
   · exact safe_nil [41] m hm h
-  all_goals
-    rw [take_append_gt _ _ m hm] at h
+  · rw [take_append_gt _ _ m hm] at h
     obtain ⟨k, hk⟩ : ∃ k, m - [41].length = k + 1 := ⟨m - 1 - 1, by simp at hm ⊢; omega⟩
     rw [hk, List.take_succ_cons] at h
     have hmem := h.2
     simp only [List.contains_eq_mem, List.cons_append, List.nil_append, decide_eq_true_eq] at hmem
     have := hrp _ hmem (by simp [List.isPrefixOf])
-    simp at this
+    simp only [List.cons.injEq, List.drop_succ_cons, List.drop_zero, List.headD_cons] at this
+    rcases this with h0 | ⟨h1, h2, h3⟩
+    · simp at h0
+    · rcases hcw with hw | rfl | rfl
+      · rw [hw] at h1; cases h1
+      · exact h2 rfl
+      · exact h3 rfl
 
 theorem safe_dot (hd : ∀ t ∈ S, [46, 32].isPrefixOf t = true → t = [46, 32]) (rest : List Nat) :
     SafeAfter S [46, 32] rest := by
